@@ -1532,6 +1532,40 @@ def b_isinstance(interp, args, kwargs):
     return isinstance_(interp, args[0], args[1])
 
 
+def b_slice(interp, args, kwargs):
+    """slice(a, b[, c]) with constant bounds: a constant slice object."""
+    if kwargs or not 1 <= len(args) <= 3 or not all(
+            isinstance(a_, K) for a_ in args):
+        return NotImplemented
+    try:
+        return K(slice(*[a_.v for a_ in args]))
+    except Exception as e:
+        raise py_exc(interp, e)
+
+
+def b_issubclass(interp, args, kwargs):
+    if len(args) != 2:
+        return NotImplemented
+    c, info = args
+    if isinstance(c, K):
+        raise AbsRaise(T('exc', 'TypeError', 'issubclass() arg 1'))
+    infos = list(info.items) if isinstance(info, TupleV) else [info]
+    if not isinstance(c, (ClassRef, ExtRef)) or not all(
+            isinstance(i, (ClassRef, ExtRef)) for i in infos):
+        return NotImplemented
+    unknown = False
+    for i in infos:
+        r = exc_is_subclass(c, i) if c is not i else True
+        if r is None and isinstance(c, ClassRef) and isinstance(i, ClassRef):
+            r = c.is_subclass(i)
+        if r:
+            return K(True)
+        unknown = unknown or r is None
+    if unknown:
+        return NotImplemented
+    return K(False)
+
+
 def b_str(interp, args, kwargs):
     if not args:
         return K('')
@@ -1988,6 +2022,21 @@ def b_iter(interp, args, kwargs):
         return args[0]
     if isinstance(args[0], (ListV, TupleV)):
         return IterV(list(args[0].items))
+    if isinstance(args[0], K) and isinstance(
+            args[0].v, (tuple, list, str, bytes, range)):
+        return IterV(interp.iterate(args[0]))
+    if isinstance(args[0], (SetV, DictV)):
+        return IterV(interp.iterate(args[0]))
+    if isinstance(args[0], T) and interp.guide is not None:
+        # following one input: the iterable is what it evaluates to
+        from .termeval import CannotEval, Raised
+        try:
+            got = interp.guide(args[0])
+            if isinstance(got, (range, list, tuple, str, bytes)) and \
+                    len(got) <= interp.world.unroll_bound:
+                return IterV([from_python(x) for x in got])
+        except (CannotEval, Raised):
+            pass
     return T('call', 'iter', interp.termify(args[0]))
 
 
@@ -2691,7 +2740,9 @@ def b_operator(sym):
 
 
 BUILTINS = {
-    'len': b_len, 'isinstance': b_isinstance, 'str': b_str,
+    'len': b_len, 'isinstance': b_isinstance, 'issubclass': b_issubclass,
+    'slice': b_slice,
+    'str': b_str,
     'int': _num('int', int, 'int'), 'float': _num('float', float, 'float'),
     'bool': b_bool, 'min': b_minmax('min'), 'max': b_minmax('max'),
     'range': b_range, 'enumerate': b_enumerate, 'reversed': b_reversed,
